@@ -475,7 +475,7 @@ def get_hint_pep_sign_ambiguous_or_none(hint: Hint) -> Optional[HintSign]:
         # "str.join", slot wrappers like "int.__add__") define *NO*
         # "__module__" dunder attribute, which is thus accessed safely.
         hint_basename_to_sign = HINT_MODULE_NAME_TO_HINT_BASENAME_TO_SIGN.get(
-            getattr(hint, '__module__', None), FROZENDICT_EMPTY)
+            getattr(hint, '__module__', ''), FROZENDICT_EMPTY)
 
         # Sign identifying this hint if this hint is identifiable by its
         # basename *OR* "None" otherwise.
